@@ -112,6 +112,16 @@ def battery(seed):
         go('basic_discrete_SIR/%s/plain' % kind, lambda: canon(EoN.basic_discrete_SIR(G, 0.5, initial_infecteds=list(i0))))
         go('basic_discrete_SIS/%s/plain' % kind, lambda: canon(EoN.basic_discrete_SIS(G, 0.5, initial_infecteds=list(i0), tmax=6)))
         go('percolation_based_discrete_SIR/%s/plain' % kind, lambda: canon(EoN.percolation_based_discrete_SIR(G, 0.5, initial_infecteds=list(i0))))
+        # full data on a dense graph with a high transmission probability: several simultaneous infectors per node,
+        # so the recorded infector is itself a random choice (same process / same interpreter configuration: identical)
+        D, LD = graph(kind, 10, 9, p=0.9)
+        def dfull(inv, GG):
+            return {'t': canon(inv.t()), 'I': canon(inv.I()), 'hist': {repr(u): canon(inv.node_history(u)) for u in GG.nodes()},
+                    'trans': canon([(t_, repr(a), repr(b)) for t_, a, b in inv.transmissions()])}
+        go('discrete_SIR/%s/dense/full' % kind, lambda: dfull(EoN.discrete_SIR(D, args=(0.8,), initial_infecteds=[LD[0], LD[4], LD[7]], return_full_data=True), D))
+        go('basic_discrete_SIR/%s/dense/full' % kind, lambda: dfull(EoN.basic_discrete_SIR(D, 0.8, initial_infecteds=[LD[1], LD[2]], return_full_data=True), D))
+        go('basic_discrete_SIS/%s/dense/full' % kind, lambda: dfull(EoN.basic_discrete_SIS(D, 0.8, initial_infecteds=[LD[1], LD[2], LD[5]], tmax=5, return_full_data=True), D))
+        go('percolation_based_discrete_SIR/%s/dense/full' % kind, lambda: dfull(EoN.percolation_based_discrete_SIR(D, 0.8, initial_infecteds=[LD[3], LD[6]], return_full_data=True), D))
     return out
 
 
